@@ -26,7 +26,7 @@ type e3 struct {
 	shard    int
 	nshards  int
 	n        int // case counter for sharding
-	evals    int
+	evals    atomic.Int64
 	distinct map[string]bool
 	viols    map[string]*FoundViolation
 	samples  []string
@@ -94,7 +94,7 @@ func TestE3(t *testing.T) {
 		select {
 		case <-done:
 		case <-time.After(2 * time.Second):
-			if b := e.beat.Load() + int64(e.evals); b != last {
+			if b := e.beat.Load() + e.evals.Load(); b != last {
 				last, since = b, time.Now()
 			} else if time.Since(since) > e3Stall {
 				hung = true
@@ -109,6 +109,9 @@ func TestE3(t *testing.T) {
 			what = fmt.Sprintf("case %d", e.n)
 		}
 		prop := strings.ToUpper(name[:3])
+		if targetProp != "" {
+			prop = targetProp
+		}
 		viols := map[string]*FoundViolation{prop + "|call-never-returns#e3": {Prop: prop, Sig: "call-never-returns#e3", Scenario: "e3:" + name, Count: 1,
 			Detail: fmt.Sprintf("the enumeration made no progress for %v inside %s: a library call neither returns nor fails", e3Stall, what)}}
 		for k, v := range e.viols { // what the stuck enumeration had found before
@@ -119,8 +122,8 @@ func TestE3(t *testing.T) {
 	r := e.res
 	r.Shard = fmt.Sprintf("%d/%d", e.shard, e.nshards)
 	r.Bound = os.Getenv("VERIF_BOUND")
-	r.Execs = e.evals
-	r.Transitions = e.evals
+	r.Execs = int(e.evals.Load())
+	r.Transitions = int(e.evals.Load())
 	r.States = len(e.distinct)
 	for k := range e.distinct {
 		if len(r.Outcomes) < 200 {
@@ -148,7 +151,7 @@ func TestE3(t *testing.T) {
 		for _, v := range r.Violations {
 			fmt.Println("VIOLATION", v.Prop, v.Sig, v.Count, v.Detail)
 		}
-		fmt.Printf("%s: %d evaluations, %d distinct, %.1fs\n", name, e.evals, len(e.distinct), r.WallS)
+		fmt.Printf("%s: %d evaluations, %d distinct, %.1fs\n", name, e.evals.Load(), len(e.distinct), r.WallS)
 	}
 }
 
